@@ -35,3 +35,17 @@ Definition b3_eqb (a b : bool * (bool * bool)) : bool :=
 Definition chk_variant (p : list tm * list tm) : bool := variant_list (fst p) (snd p).
 Definition chk_inst_list (p : list tm * list tm) : bool := instance_of_list (fst p) (snd p).
 Definition chk_repeats (cur : list tm) : bool := repeats_var cur.
+
+(** Verdict of the may-invalidate property on real outputs, for a case where the real check
+    said "cannot change": 0 = the property holds (the answer is an instance of the guidance
+    and, unless the guidance repeats a variable, the really merged guidance is a variant of
+    it); 1 = it fails and the input is in the known class F1; 2 = it fails otherwise. *)
+Definition chk_mi_verdict (p : (list tm * list tm) * list tm) : N :=
+  let '((new, cur), g') := p in
+  if instance_of_list new cur && (repeats_var cur || variant_list g' cur) then 0
+  else if f1_class new ([], cur) then 1 else 2.
+
+(** End to end: 0 = the known solution is an instance of the definite guidance; 1 = it is
+    not and the guidance repeats a variable (class F1); 2 = it is not, otherwise. *)
+Definition chk_e2e_verdict (p : list tm * list tm) : N :=
+  if instance_of_list (fst p) (snd p) then 0 else if repeats_var (snd p) then 1 else 2.
